@@ -2,6 +2,7 @@ package main
 
 import (
 	"fmt"
+	"go/types"
 	"os/exec"
 	"sort"
 	"strings"
@@ -234,6 +235,57 @@ func CensusObl(w *World, id string, c CensusSpec) []*Obl {
 			return mk(false, fmt.Sprintf("%s of %s outside the contracted set: %v", c.Kind, c.Args[0], extra))
 		}
 		return mk(true, fmt.Sprintf("%s of %s are exactly within %v (found %v)", c.Kind, c.Args[0], c.Args[1:], got))
+	}
+	if c.Kind == "impl" {
+		// closed world: the only concrete named types of the loaded (non-test) packages that implement the
+		// interface are the listed ones
+		if len(c.Args) < 2 {
+			return mk(false, "impl census needs an interface and at least one type")
+		}
+		it := w.lookupType(c.Args[0])
+		if it == nil {
+			return mk(false, "interface "+c.Args[0]+" not found")
+		}
+		iface, ok := it.Underlying().(*types.Interface)
+		if !ok {
+			return mk(false, c.Args[0]+" is not an interface")
+		}
+		allowed := map[string]bool{}
+		for _, a := range c.Args[1:] {
+			allowed[strings.TrimPrefix(a, "*")] = true
+		}
+		var extra, found []string
+		for path, p := range w.ByPath {
+			if strings.Contains(path, "/testing") || strings.Contains(path, "/mock") || strings.Contains(path, "/simulation") {
+				continue
+			}
+			sc := p.Types.Scope()
+			for _, n := range sc.Names() {
+				tn, ok := sc.Lookup(n).(*types.TypeName)
+				if !ok || tn.IsAlias() {
+					continue
+				}
+				if _, isI := tn.Type().Underlying().(*types.Interface); isI {
+					continue
+				}
+				if f := w.Fset.Position(tn.Pos()).Filename; strings.HasSuffix(f, "_test.go") {
+					continue
+				}
+				if types.Implements(tn.Type(), iface) || types.Implements(types.NewPointer(tn.Type()), iface) {
+					q := shortPkg(path) + "." + n
+					found = append(found, q)
+					if !allowed[q] {
+						extra = append(extra, q)
+					}
+				}
+			}
+		}
+		sort.Strings(extra)
+		sort.Strings(found)
+		if len(extra) > 0 {
+			return mk(false, fmt.Sprintf("types implementing %s outside the declared set: %v", c.Args[0], extra))
+		}
+		return mk(true, fmt.Sprintf("implementations of %s in modules/...: %v", c.Args[0], found))
 	}
 	return mk(false, "unknown census kind "+c.Kind)
 }
